@@ -44,10 +44,20 @@ func (s *BigramFilter) Filter(input analysis.TokenStream) analysis.TokenStream {
 				// the width comes from the bytes: an invalid byte occupies one
 				// byte, although it decodes to a three byte rune
 				_, rlen := utf8.DecodeRune(tokout.Term[sofar:])
+				// the term may have been rewritten by an earlier filter (width
+				// folding can make it longer than the text it came from), so
+				// offsets derived from it are kept within the source token
+				start, end := tokout.Start+sofar, tokout.Start+sofar+rlen
+				if start > tokout.End {
+					start = tokout.End
+				}
+				if end > tokout.End {
+					end = tokout.End
+				}
 				token := &analysis.Token{
 					Term:         tokout.Term[sofar : sofar+rlen],
-					Start:        tokout.Start + sofar,
-					End:          tokout.Start + sofar + rlen,
+					Start:        start,
+					End:          end,
 					PositionIncr: 0,
 					Type:         tokout.Type,
 					KeyWord:      tokout.KeyWord,
